@@ -202,12 +202,12 @@ def eval_flatten(case):
     nev = 0
     if len(shape) == 1:
         dfs = [_tab(i, sizes[i % len(sizes)]) for i in range(shape[0])]
-        labels = ['L%d' % i for i in range(shape[0])]
+        labels = ['L%d' % (i % 2 if lab_kind == 'dup' else i) for i in range(shape[0])]      # 'dup': condition labels shared by several tables
         flat_t, flat_l = dfs, labels
         lab = labels
     else:
         dfs = [[_tab(i * shape[1] + j, sizes[(i * shape[1] + j) % len(sizes)]) for j in range(shape[1])] for i in range(shape[0])]
-        lab = [['L%d_%d' % (i, j) for j in range(shape[1])] for i in range(shape[0])]
+        lab = [['L%d_%d' % (i, j) if lab_kind != 'dup' else 'L%d' % ((i + j) % 2) for j in range(shape[1])] for i in range(shape[0])]
         flat_t = [d for row in dfs for d in row]
         flat_l = [x for row in lab for x in row]
     if lab_kind == 'array':
@@ -239,6 +239,8 @@ def spaces(tier, seed):
     q = tier == 'quick'
     out = [LimitTables(10 if q else 12, [1, 4, 10])]
     ls = [(N, fs, t0) for N in range(1, 9 if q else 11) for fs in (1, 4, 10) for t0 in (0, 1, 2.5, -1, -2.5)]
+    # long / high-rate recordings and absolute time stamps: limit * fs of 1e5 .. 3e9 (relative tolerances become whole samples)
+    ls += [(N, fs, t0) for N in (1, 2, 5) for fs in (1000, 30000) for t0 in (100, 119.5, 3600, 86400)]
     out.append(ListSpace('limit_signal', ls, eval_limit_signal,
                          describe='every time axis t0 + arange(N)/fs x full (start, stop) grid incl. None'))
     al = S.alphabet(4 if q else 6)
@@ -247,7 +249,7 @@ def spaces(tier, seed):
     fl = []
     for shape in [(1,), (2,), (3,), (1, 1), (1, 2), (2, 1), (2, 2), (1, 3), (3, 1), (2, 3), (3, 2)]:
         for sizes in [(2,), (1, 3), (0, 2), (2, 0, 1)]:
-            for lk in ('list', 'array') + (('flatlist', 'array-F', 'array-T') if len(shape) == 2 else ()):
+            for lk in ('list', 'array', 'dup') + (('flatlist', 'array-F', 'array-T') if len(shape) == 2 else ()):
                 for cn in (None, 'grp'):
                     fl.append([list(shape), list(sizes), lk, cn])
     out.append(ListSpace('flatten_dfs', fl, eval_flatten, describe='1-D lists of 1..3 and 2-D lists up to 3x2 / 2x3 of tables '
